@@ -1,5 +1,6 @@
 import LiquidVerif.Lemmas.Mode
 import LiquidVerif.Lemmas.ModeSim
+import LiquidVerif.Model.ModeAsync
 import LiquidVerif.Gen.ModeSites
 /-!
 # C03 — lax and warn modes suppress errors without changing correct output
@@ -200,6 +201,39 @@ theorem strict_ok_implies_lax_warn_same (c : Cfg σ) (src : List (Tok σ)) (st :
     run (c.withMode .lax) src st = .ok out {} ∧ run (c.withMode .warn) src st = .ok out { suppressed := [], warnings := [] } :=
   ⟨(strict_ok_implies_same c src st out log h).2 .lax, (strict_ok_implies_same c src st out log h).2 .warn⟩
 
+/-! ## The asynchronous render loop (`render_with_context_async`, modelled as its own function in `Model/ModeAsync.lean`)
+
+The node-level async twins are C01's obligations (erase-equal pairs / reviewed residuals); here the *loop* — the place
+where the mode is consulted — is modelled separately and proved equal to the sync loop, so every theorem above holds for
+`render_async` as well. -/
+
+/-- the async template loop is the sync template loop, for every node renderer -/
+theorem async_loop_equals_sync_loop (c : Cfg σ) (rn : Node σ → RS σ → RS σ × Sig) (p b : Bool) (ns : List (Node σ)) (rs : RS σ) :
+    templateLoopAsync c rn p b ns rs = templateLoop c rn p b ns rs :=
+  templateLoopAsync_eq c rn p b ns rs
+
+/-- `await from_string(src).render_async(data)` observes what `from_string(src).render(data)` observes, in every mode -/
+theorem async_run_equals_sync_run (c : Cfg σ) (src : List (Tok σ)) (st : σ) : runAsync c src st = run c src st :=
+  runAsync_eq c src st
+
+/-- sentence 1 for `render_async` -/
+theorem lax_never_raises_async (c : Cfg σ) (h : c.mode ≠ .strict) (src : List (Tok σ)) (st : σ) :
+    ∃ out log, runAsync c src st = .ok out log := by
+  rw [runAsync_eq]; exact lax_never_raises c h src st
+
+/-- sentence 2 for `render_async` -/
+theorem warn_reports_each_async (c : Cfg σ) (h : c.mode = .warn) (src : List (Tok σ)) (st : σ) (out log)
+    (hr : runAsync c src st = .ok out log) : log.warnings = log.suppressed.map (lookupWarning c.warnTable) := by
+  rw [runAsync_eq] at hr; exact warn_reports_each c h src st out log hr
+
+/-- sentence 3 for `render_async` -/
+theorem strict_ok_implies_same_async (c : Cfg σ) (src : List (Tok σ)) (st : σ) (out : String) (log : Log)
+    (h : runAsync (c.withMode .strict) src st = .ok out log) :
+    log = {} ∧ ∀ m, runAsync (c.withMode m) src st = .ok out {} := by
+  rw [runAsync_eq] at h
+  obtain ⟨h1, h2⟩ := strict_ok_implies_same c src st out log h
+  exact ⟨h1, fun m => by rw [runAsync_eq]; exact h2 m⟩
+
 /-! ## Tie to the source: obligations over the generated inventory (`Gen/ModeSites.lean`, rewritten on every run) -/
 
 /-- every consultation of the mode in liquid/ has a benign shape (re-exported; decided in the generated file) -/
@@ -232,7 +266,8 @@ section examples
 
 def exTags (name : String) : TagKind :=
   if name == "if" then .cond "endif" false else if name == "for" then .loop "endfor"
-  else if name == "break" then .interrupt true else if name == "echo" then .eval true else .unknown
+  else if name == "break" then .interrupt true else if name == "echo" then .eval true
+  else if name == "case" then .case_ "endcase" else .unknown
 
 def exCfg (m : Mode) : Cfg Unit :=
   { mode := m, warnTable := Gen.ModeSites.warnings, syntaxClasses := Gen.ModeSites.syntaxClasses, tags := exTags,
@@ -261,6 +296,16 @@ example : run (exCfg .warn) badSrc () =
     .ok "ab" { suppressed := ["LiquidSyntaxError", "LiquidSyntaxError", "LiquidSyntaxError", "FilterArgumentError", "LiquidSyntaxError"],
                warnings := ["LiquidSyntaxWarning", "LiquidSyntaxWarning", "LiquidSyntaxWarning", "FilterWarning", "LiquidSyntaxWarning"] } := by
   decide
+
+/-- `{% case 1 %} junk {% when 1, 1 %}y{% else %}n{% when %}z{% endcase %}{% when 1 %}` -/
+def caseSrc : List (Tok Unit) :=
+  [.tag "case", lit "" 0, .content " junk ", .tag "when", lit "" 2, .content "y", .tag "else", .content "n", .tag "when", .content "z",
+   .tag "endcase", .tag "when", lit "" 1]
+
+example : run (exCfg .strict) caseSrc () = .parseError "LiquidSyntaxError" := by decide
+example : run (exCfg .warn) caseSrc () =
+    .ok "" { suppressed := ["LiquidSyntaxError", "LiquidSyntaxError"], warnings := ["LiquidSyntaxWarning", "LiquidSyntaxWarning"] } := by decide
+example : runAsync (exCfg .lax) badSrc () = run (exCfg .lax) badSrc () := by decide
 
 end examples
 
